@@ -5,3 +5,6 @@ import G3D.Props.C02
 #print axioms G3D.Props.C02.polyhedron_hull_subset_contains_partial
 #print axioms G3D.Props.C02.inter_flat_polyhedron_sound
 #print axioms G3D.Props.C02.polyhedron_contains_iff_hull
+#print axioms G3D.Props.C02.inter_flat_polyhedron_exact
+#print axioms G3D.Props.C02.exact_hypothesis_decidable
+#print axioms G3D.Props.C02.coplanar_neighbours_break_exactness
